@@ -12,7 +12,7 @@ RULE = ("total sample counts n: every n in 2..24 (quick) / 2..60 (thorough) plus
         "(the recursion over ancestors is exercised)")
 ASSUME = ["the Python exact-rational reference (closed-form level weights) is tied to the Coq model by an exact "
           "comparison with the model evaluated on Q inside Coq for small n on every run, and to the Kingman jump "
-          "chain by C14_kingman_bounded (n <= 28) and by a Python re-enumeration (n <= 9) on every run",
+          "chain by C14_kingman_bounded (n <= 24) and by a Python re-enumeration (n <= 9) on every run",
           "binary64 run of the model uses the linear representation of the level probabilities (the code uses "
           "logs); C14_marginalize_linear_agrees proves both equal over R; compared under a measured tolerance",
           "approximate (interpolated) priors for n >= 10000 are outside the statement"]
